@@ -215,6 +215,11 @@ def run(ctx):
                 kb = lib._const_bytes_through(e8, c.args[0])
                 if kb is not None and vals is None:
                     vals = list(kb)
+    if not vals:
+        # an empty vector whose first write is the mark: the first token of the output stream
+        tk8 = lib.out_tokens(e8)
+        if tk8 and tk8[0][0] == "lit":
+            vals = list(tk8[0][1])
     ctx.ob(R, "encoder-utf8-mark", vals == [0xEF, 0xBB, 0xBF], "encode_utf8 starts with EF BB BF", e8.where(), what="encode_utf8 no longer starts with the UTF-8 mark EF BB BF")
     # get_font_encoding reaches exactly the predefined tables by name
     gfe = F.fn("Dictionary::get_font_encoding")
